@@ -28,6 +28,7 @@ def check(chk, thorough=False):
     chk.run('C13.e', 'R-FLOW', 'a datagram is handled message by message: a bundle is cut at its CBOR item boundary, padding / unknown octets skip the rest without queuing', lambda ob: c13e(tree, ob), floor=5)
     chk.run('C13.g', 'R-FLOW', 'a queued bundle is measured at its end and sent from its start; a transfer id of 0 is a transfer id (no truthiness test); received items get local ids only', lambda ob: c13g(tree, ob, UAGENT), floor=4)
     chk.run('C13.h', 'R-FLOW', 'the send entry queues a file over exactly the octets passed in (byte-array conversion only)', lambda ob: __import__('sa.props.common', fromlist=['entry_fidelity']).entry_fidelity(tree, ob, 'udpcl/agent.py', 'Agent.send_bundle_data'), floor=1)
+    chk.run('C13.i', 'R-TRUTH', 'the MTU applied is the configured one: the configuration loader hands every setting on as read', lambda ob: __import__('sa.props.common', fromlist=['config_verbatim']).config_verbatim(tree, ob, 'udpcl/config.py'), floor=2)
     chk.run('C13.f', 'R-PAIR', 'queue then announce the same id; ids come from a counter that only increments', lambda ob: c13f(tree, ob), floor=3)
 
 
@@ -137,6 +138,32 @@ def c13_pending_datagram(tree, ob):
             ob.violate(UAGENT, fv.qual, src(st), 'the segment that waits for tokens is forgotten without having been sent ({}): the transfer goes on with the next segment and is reported '
                        'as success although the receiver can never complete it'.format(why), st)
     ob.require(n >= 2, 'stores to cur_dgram found: {}'.format(n))
+    # ... and the other way round: when the current transfer is given up (or finished), no datagram of it stays pending --
+    # it would go out under the next transfer
+    from ..core import parent
+    for (f, st, k, v) in stores_to_self_attr(cls, 'cur_item'):
+        if f.name == '__init__' or not (isinstance(v, ast.Constant) and v.value is None):
+            continue
+        fv = FuncView(tree, UAGENT, 'TxSendWait.' + f.name)
+        sibs = []
+        par = parent(st)
+        for fld in ('body', 'orelse', 'finalbody'):
+            blk = getattr(par, fld, None)
+            if isinstance(blk, list) and st in blk:
+                sibs = blk
+        cleared = any(isinstance(x, ast.Assign) and any(src(t) == 'self.cur_dgram' for t in x.targets) and isinstance(x.value, ast.Constant) and x.value.value is None for x in sibs)
+        # (in the handler of a failed "self.cur_dgram = next(...)" the assignment did not happen: the value is still the None
+        # that was tested just before)
+        h = enclosing(st, ast.ExceptHandler)
+        tr = parent(h) if h is not None else None
+        from ..core import is_logging_stmt
+        tbody = [x for x in (tr.body if tr is not None and isinstance(tr, ast.Try) else []) if not is_logging_stmt(x)]
+        failed_fetch = len(tbody) == 1 and isinstance(tbody[0], ast.Assign) and src(tbody[0].targets[0]) == 'self.cur_dgram' and fv.has(tbody[0], 'self.cur_dgram is None', True)
+        if cleared or failed_fetch or fv.has(st, 'self.cur_dgram is None', True):
+            ob.site(UAGENT, st, 'no datagram of the ended transfer stays pending')
+        else:
+            ob.violate(UAGENT, fv.qual, src(st) + '  (self.cur_dgram keeps its value)', 'the current transfer is dropped while a datagram of it is still pending: it is sent as the first datagram of the next '
+                       'transfer (a segment of a failed bundle inside another, or an oversized datagram failing every later transfer)', st)
 
 
 def c13_tx_isolation(tree, ob):
@@ -238,8 +265,32 @@ def c13c(tree, ob):
         ob.site(UAGENT, outs[0], 'datagram = encoded map')
 
 
+def _length_agreement(tree, ob, fv):
+    ''' a segment is spliced into the buffer of the transfer that has its key; the buffer has the size announced by the
+    first segment.  A later segment announcing another total length belongs to another bundle (a reused transfer id): it is
+    refused -- validate() raises, or its verdict is tested -- before anything is written. '''
+    vcalls = [c for c in calls_in(fv.func) if isinstance(c.func, ast.Attribute) and c.func.attr == 'validate' and len(c.args) == 1]
+    if not vcalls:
+        ob.violate(UAGENT, fv.qual, 'xfer.validate(new_xfer)', 'a segment is spliced into an existing transfer without comparing the announced total lengths', fv.func)
+        return
+    vc = vcalls[0]
+    hv = FuncView(tree, UAGENT, 'Transfer.validate')
+    raises = [r for r in walk_local(hv.func) if isinstance(r, ast.Raise)]
+    refusing = [r for r in raises if any(('total_length' in t and '!=' in t and p is True) or ('total_length' in t and '==' in t and p is False) for (t, p) in (hv.facts(r) or ()))]
+    from ..core import parent
+    used = not isinstance(parent(vc), ast.Expr)
+    if refusing:
+        ob.site(UAGENT, refusing[0], 'a segment with another total length raises out of the transfer branch')
+    elif used and isinstance(parent(vc), (ast.If, ast.UnaryOp, ast.BoolOp, ast.Assign)):
+        ob.site(UAGENT, vc, 'the verdict of validate() is used')
+    else:
+        ob.violate(UAGENT, fv.qual, src(vc) + '  (result ignored, validate() does not raise)', 'a segment that announces another total length than the transfer it is keyed to is spliced into that transfer all the same: '
+                   'octets of two bundles are mixed and the result is queued as one', vc)
+
+
 def c13d(tree, ob):
     fv = FuncView(tree, UAGENT, QR)
+    _length_agreement(tree, ob, fv)
     adds = [c for c in method_calls(fv.func, '_add_rx_item', 'self')]
     a = one(adds, '_add_rx_item in the transfer branch', ob)
     dels = [n for n in walk_local(fv.func) if isinstance(n, ast.Delete) and 'self._rx_fragments' in src(n)]
